@@ -2,7 +2,11 @@
   Helper lemmas for the connection-lifetime model (C13): normal form of h1_check_timeout(), the
   behaviour of the periodic sweep on a connection at rest, invariants of runs without client
   progress, slot accounting of the server model (`Neutral`, `Sys.total`), the accept loop, graceful
-  shutdown (`Stopping`), the request size limits, and h2_check_timeout().
+  shutdown (`Stopping`), the request size limits, h2_check_timeout(), and the embedding of one
+  connection into the server: the connection table as a map (`Sys.WF`), frame conditions for the
+  actions of other clients, `run_conn` (a script without actions of client i is a run of idle events
+  for i's connection), `Sys.Good` (every reachable state is consistent and all its connections are
+  at rest).
   Core Lean only.
 -/
 import LtVerif.Model.Lifecycle
@@ -86,7 +90,7 @@ theorem gracefulConn_cases (e : Bool) (c : Conn) :
   by_cases h1 : c.st = .close
   · simp [h1]
   · by_cases h2 : c.st = .read ∧ c.n > 1 ∧ c.hdrBuf = 0
-    · simp [h1, h2]
+    · simp [h2]
     · cases e <;> simp [h1, h2]
 
 theorem closedBy_step (cfg : Cfg) (a : Int) (c : Conn) (e : IdleEv) (h : ClosedBy a (some c)) :
@@ -936,5 +940,1271 @@ theorem bodyStep_chunked_ok_bounded (cfg : Cfg) (now : Int) (c : Conn) (add : Na
     · rename_i hgot
       exact h413 (chunk413_of_large cfg c.req _ hr hc (by omega) hgot)
     · simp at h
+
+/-! ## one connection inside the server -/
+
+/-! ## one connection inside the server: frame conditions -/
+
+def keys (l : List (Nat × Conn)) : List Nat := l.map Prod.fst
+
+theorem lookup_none_iff (l : List (Nat × Conn)) (i : Nat) : lookupConn l i = none ↔ i ∉ keys l := by
+  induction l with
+  | nil => simp [lookupConn, keys]
+  | cons p rest ih =>
+    obtain ⟨j, d⟩ := p
+    unfold lookupConn
+    by_cases h : j = i
+    · simp [h, keys]
+    · simp only [h, if_false, ih, keys, List.map_cons, List.mem_cons]
+      constructor
+      · intro h1 h2
+        rcases h2 with h2 | h2
+        · exact h h2.symm
+        · exact h1 h2
+      · intro h1 h2
+        exact h1 (Or.inr h2)
+
+theorem lookup_setConn_ne (l : List (Nat × Conn)) (i j : Nat) (c : Conn) (h : j ≠ i) :
+    lookupConn (setConn l j c) i = lookupConn l i := by
+  induction l with
+  | nil => rfl
+  | cons p rest ih =>
+    obtain ⟨k, d⟩ := p
+    unfold setConn
+    by_cases hk : k = j
+    · simp only [hk, if_true, lookupConn, h, if_false]
+    · simp only [hk, if_false, lookupConn, ih]
+
+theorem lookup_setConn_self (l : List (Nat × Conn)) (i : Nat) (c c0 : Conn) (h : lookupConn l i = some c0) :
+    lookupConn (setConn l i c) i = some c := by
+  induction l with
+  | nil => simp [lookupConn] at h
+  | cons p rest ih =>
+    obtain ⟨k, d⟩ := p
+    unfold setConn
+    unfold lookupConn at h
+    by_cases hk : k = i
+    · simp [hk, lookupConn]
+    · simp only [hk, if_false] at h
+      simp only [hk, if_false, lookupConn, ih h]
+
+theorem keys_setConn (l : List (Nat × Conn)) (i : Nat) (c : Conn) : keys (setConn l i c) = keys l := by
+  induction l with
+  | nil => rfl
+  | cons p rest ih =>
+    obtain ⟨k, d⟩ := p
+    unfold setConn
+    by_cases hk : k = i
+    · simp [hk, keys]
+    · simp only [hk, if_false, keys, List.map_cons] at ih ⊢
+      rw [ih]
+
+theorem lookup_eraseConn_ne (l : List (Nat × Conn)) (i j : Nat) (h : j ≠ i) :
+    lookupConn (eraseConn l j) i = lookupConn l i := by
+  induction l with
+  | nil => rfl
+  | cons p rest ih =>
+    obtain ⟨k, d⟩ := p
+    unfold eraseConn
+    by_cases hk : k = j
+    · have : ¬ k = i := fun hh => h (hk ▸ hh)
+      simp only [hk, if_true, lookupConn]
+      rw [if_neg (by rw [← hk]; exact this)]
+    · simp only [hk, if_false, lookupConn, ih]
+
+theorem keys_eraseConn_sublist (l : List (Nat × Conn)) (i : Nat) : (keys (eraseConn l i)).Sublist (keys l) := by
+  induction l with
+  | nil => exact List.Sublist.refl _
+  | cons p rest ih =>
+    obtain ⟨k, d⟩ := p
+    unfold eraseConn
+    by_cases hk : k = i
+    · simp only [hk, if_true, keys, List.map_cons]
+      exact List.sublist_cons_self _ _
+    · simp only [hk, if_false, keys, List.map_cons]
+      exact List.Sublist.cons_cons _ ih
+
+theorem lookup_eraseConn_self (l : List (Nat × Conn)) (i : Nat) (hn : (keys l).Nodup) :
+    lookupConn (eraseConn l i) i = none := by
+  induction l with
+  | nil => rfl
+  | cons p rest ih =>
+    obtain ⟨k, d⟩ := p
+    simp only [keys, List.map_cons, List.nodup_cons] at hn
+    unfold eraseConn
+    by_cases hk : k = i
+    · simp only [hk, if_true]
+      rw [lookup_none_iff]
+      rw [← hk]
+      exact hn.1
+    · simp only [hk, if_false, lookupConn]
+      exact ih hn.2
+
+/-- the connection table is a map (one entry per client), the listen queue has no duplicates, and
+    nobody is both waiting and being served -/
+structure Sys.WF (s : Sys) : Prop where
+  keysNodup : (keys s.conns).Nodup
+  backlogNodup : s.backlog.Nodup
+  disjoint : ∀ j, j ∈ s.backlog → lookupConn s.conns j = none
+
+@[simp] theorem modClient_conn (s : Sys) (j i : Nat) (f : Client → Client) : (s.modClient j f).conn i = s.conn i := rfl
+
+theorem wf_modClient (s : Sys) (j : Nat) (f : Client → Client) (h : s.WF) : (s.modClient j f).WF :=
+  ⟨h.keysNodup, h.backlogNodup, h.disjoint⟩
+
+theorem wf_release (s : Sys) (j : Nat) (h : s.WF) : (s.release j).WF := by
+  unfold Sys.release
+  split
+  · exact h
+  · refine ⟨(keys_eraseConn_sublist s.conns j).nodup h.keysNodup, h.backlogNodup, ?_⟩
+    intro k hk
+    have := h.disjoint k hk
+    rw [lookup_none_iff] at this ⊢
+    exact fun hm => this ((keys_eraseConn_sublist s.conns j).subset hm)
+
+theorem release_conn_ne (s : Sys) (i j : Nat) (h : j ≠ i) : (s.release j).conn i = s.conn i := by
+  unfold Sys.release
+  split
+  · rfl
+  · exact lookup_eraseConn_ne s.conns i j h
+
+theorem release_conn_self (s : Sys) (i : Nat) (h : s.WF) : (s.release i).conn i = none := by
+  unfold Sys.release
+  split
+  · rename_i hn; exact hn
+  · exact lookup_eraseConn_self s.conns i h.keysNodup
+
+theorem wf_putConn (s : Sys) (j : Nat) (r : CRes) (h : s.WF) : (s.putConn j r).WF := by
+  unfold Sys.putConn
+  split
+  · exact wf_modClient _ _ _ (wf_release _ _ (wf_modClient _ _ _ h))
+  · rename_i c hc
+    have hwf : ({ (s.modClient j fun cl => { cl with inbox := cl.inbox ++ r.2 }) with
+                  conns := setConn s.conns j c } : Sys).WF := by
+      refine ⟨?_, h.backlogNodup, ?_⟩
+      · simpa [keys_setConn] using h.keysNodup
+      · intro k hk
+        have := h.disjoint k hk
+        rw [lookup_none_iff] at this ⊢
+        simpa [keys_setConn] using this
+    split
+    · exact wf_modClient _ _ _ hwf
+    · exact hwf
+
+theorem putConn_conn_ne (s : Sys) (i j : Nat) (r : CRes) (h : j ≠ i) : (s.putConn j r).conn i = s.conn i := by
+  unfold Sys.putConn
+  split
+  · simp only [modClient_conn]; exact release_conn_ne _ i j h
+  · split
+    · simp only [modClient_conn]; exact lookup_setConn_ne s.conns i j _ h
+    · exact lookup_setConn_ne s.conns i j _ h
+
+theorem putConn_conn_self (s : Sys) (i : Nat) (r : CRes) (c0 : Conn) (h : s.WF) (hc : s.conn i = some c0) :
+    (s.putConn i r).conn i = r.1 := by
+  unfold Sys.putConn
+  split
+  · rename_i hr
+    simp only [modClient_conn]
+    rw [hr]
+    exact release_conn_self _ i (wf_modClient _ _ _ h)
+  · rename_i c hr
+    rw [hr]
+    split
+    · simp only [modClient_conn]; exact lookup_setConn_self s.conns i c c0 hc
+    · exact lookup_setConn_self s.conns i c c0 hc
+
+theorem onConn_conn_ne (s : Sys) (i j : Nat) (f : Conn → CRes) (h : j ≠ i) : (s.onConn j f).conn i = s.conn i := by
+  unfold Sys.onConn
+  split
+  · rfl
+  · exact putConn_conn_ne s i j _ h
+
+theorem wf_onConn (s : Sys) (j : Nat) (f : Conn → CRes) (h : s.WF) : (s.onConn j f).WF := by
+  unfold Sys.onConn
+  split
+  · exact h
+  · exact wf_putConn s j _ h
+
+/-- the sweep applies `f` to every connection, independently -/
+theorem sweep_conn (s : Sys) (f : Conn → Option Conn) (i : Nat) (h : s.WF) :
+    (s.sweep f).conn i = (s.conn i).bind f ∧ (s.sweep f).WF := by
+  unfold Sys.sweep
+  have key : ∀ (l : List (Nat × Conn)) (s : Sys), s.WF → (keys l).Nodup →
+      (∀ p ∈ l, lookupConn s.conns p.1 = some p.2) →
+      ((l.foldl (fun s p => match f p.2 with
+          | none => s.putConn p.1 (none, [])
+          | some c => s.putConn p.1 (some c, [])) s).conn i =
+        (match lookupConn l i with | some c => f c | none => s.conn i)) ∧
+      (l.foldl (fun s p => match f p.2 with
+          | none => s.putConn p.1 (none, [])
+          | some c => s.putConn p.1 (some c, [])) s).WF := by
+    intro l
+    induction l with
+    | nil => intro s hs _ _; exact ⟨rfl, hs⟩
+    | cons p rest ih =>
+      intro s hs hn hl
+      obtain ⟨j, d⟩ := p
+      simp only [keys, List.map_cons, List.nodup_cons] at hn
+      simp only [List.foldl_cons]
+      have hstep : ∀ r : CRes, (s.putConn j r).WF ∧
+          (∀ q ∈ rest, lookupConn (s.putConn j r).conns q.1 = some q.2) := by
+        intro r
+        refine ⟨wf_putConn s j r hs, ?_⟩
+        intro q hq
+        have hne : j ≠ q.1 := by
+          intro he
+          apply hn.1
+          rw [he]
+          exact List.mem_map_of_mem hq
+        have := putConn_conn_ne s q.1 j r hne
+        simp only [Sys.conn] at this
+        rw [this]
+        exact hl q (List.mem_cons_of_mem _ hq)
+      have hjd : s.conn j = some d := hl (j, d) (List.mem_cons_self)
+      by_cases hji : j = i
+      · subst hji
+        have hrest : lookupConn rest j = none := by rw [lookup_none_iff]; exact hn.1
+        simp only [lookupConn, if_true]
+        cases hf : f d with
+        | none =>
+          simp only
+          have := ih (s.putConn j (none, [])) (hstep _).1 hn.2 (hstep _).2
+          rw [this.1, hrest]
+          exact ⟨putConn_conn_self s j _ d hs hjd, this.2⟩
+        | some c' =>
+          simp only
+          have := ih (s.putConn j (some c', [])) (hstep _).1 hn.2 (hstep _).2
+          rw [this.1, hrest]
+          exact ⟨putConn_conn_self s j _ d hs hjd, this.2⟩
+      · simp only [lookupConn, hji, if_false]
+        cases hf : f d with
+        | none =>
+          simp only
+          have := ih (s.putConn j (none, [])) (hstep _).1 hn.2 (hstep _).2
+          rw [this.1, putConn_conn_ne s i j _ hji]
+          exact ⟨rfl, this.2⟩
+        | some c' =>
+          simp only
+          have := ih (s.putConn j (some c', [])) (hstep _).1 hn.2 (hstep _).2
+          rw [this.1, putConn_conn_ne s i j _ hji]
+          exact ⟨rfl, this.2⟩
+  have hall : ∀ p ∈ s.conns, lookupConn s.conns p.1 = some p.2 := by
+    have : ∀ (l : List (Nat × Conn)), (keys l).Nodup → ∀ p ∈ l, lookupConn l p.1 = some p.2 := by
+      intro l
+      induction l with
+      | nil => intro _ p hp; cases hp
+      | cons q rest ih =>
+        intro hn p hp
+        obtain ⟨k, d⟩ := q
+        simp only [keys, List.map_cons, List.nodup_cons] at hn
+        rcases List.mem_cons.mp hp with rfl | hp
+        · simp [lookupConn]
+        · have hne : k ≠ p.1 := by
+            intro he; apply hn.1; rw [he]; exact List.mem_map_of_mem hp
+          simp only [lookupConn, hne, if_false]
+          exact ih hn.2 p hp
+    exact this s.conns h.keysNodup
+  have := key s.conns s h h.keysNodup hall
+  refine ⟨this.1.trans ?_, this.2⟩
+  simp only [Sys.conn]
+  cases lookupConn s.conns i <;> rfl
+
+/-- the client an action belongs to -/
+def Op.client : Op → Option Nat
+  | .tick _ => none | .wake => none | .graceful => none
+  | .open_ j => some j | .prepare j _ => some j | .send j _ => some j | .read j => some j
+  | .drain j => some j | .fin j => some j | .close j => some j
+
+/-- an action that is not one of client `i`: clock ticks, wake-ups, the signal, anything any other
+    client does -/
+def Op.foreign (i : Nat) (op : Op) : Prop := op.client ≠ some i
+
+/-- what the scripted action itself does to connection `i` when it is not `i`'s own action -/
+theorem act_conn (cfg : Cfg) (s : Sys) (op : Op) (i : Nat) (hwf : s.WF) (hib : i ∉ s.backlog)
+    (hf : op.foreign i) :
+    (s.act cfg op).WF ∧ i ∉ (s.act cfg op).backlog ∧
+    (s.act cfg op).conn i =
+      (match op with
+       | .tick n => if s.exited then s.conn i else (s.conn i).bind (tickConn cfg (s.now + n))
+       | _ => s.conn i) := by
+  cases op with
+  | tick n =>
+    simp only [Sys.act]
+    split
+    · exact ⟨⟨hwf.keysNodup, hwf.backlogNodup, hwf.disjoint⟩, hib, rfl⟩
+    · have hwf' : ({ s with now := s.now + n } : Sys).WF := ⟨hwf.keysNodup, hwf.backlogNodup, hwf.disjoint⟩
+      have := sweep_conn { s with now := s.now + n } (tickConn cfg (s.now + n)) i hwf'
+      refine ⟨this.2, ?_, this.1⟩
+      rw [(neutral_sweep _ _).backlog]; exact hib
+  | open_ j =>
+    have hji : j ≠ i := fun h => hf (by simp [Op.client, h])
+    simp only [Sys.act]
+    split
+    · exact ⟨hwf, hib, rfl⟩
+    · rename_i hg
+      split
+      · exact ⟨⟨hwf.keysNodup, hwf.backlogNodup, hwf.disjoint⟩, hib, rfl⟩
+      · have hg' : ¬ (s.backlog.contains j = true) ∧ ¬ ((s.conn j).isSome = true) := by
+          constructor
+          · intro h; exact hg (Or.inr (Or.inr (Or.inl h)))
+          · intro h; exact hg (Or.inr (Or.inr (Or.inr h)))
+        refine ⟨⟨hwf.keysNodup, ?_, ?_⟩, ?_, rfl⟩
+        · have hjb : j ∉ s.backlog := by simpa using hg'.1
+          show (s.backlog ++ [j]).Nodup
+          rw [List.nodup_append]
+          refine ⟨hwf.backlogNodup, by simp, ?_⟩
+          intro a ha b hb
+          simp at hb
+          rw [hb]
+          intro he; exact hjb (he ▸ ha)
+        · intro k hk
+          have hk' : k ∈ s.backlog ++ [j] := hk
+          rw [List.mem_append] at hk'
+          rcases hk' with hk' | hk'
+          · exact hwf.disjoint k hk'
+          · simp at hk'
+            rw [hk']
+            have := hg'.2
+            simp only [Sys.conn] at this
+            cases h : lookupConn s.conns j with
+            | none => exact h
+            | some c => rw [h] at this; simp at this
+        · show i ∉ s.backlog ++ [j]
+          rw [List.mem_append]
+          intro h
+          rcases h with h | h
+          · exact hib h
+          · simp at h; exact hji h.symm
+  | prepare j r =>
+    simp only [Sys.act]
+    split
+    · exact ⟨hwf, hib, rfl⟩
+    · exact ⟨wf_modClient _ _ _ hwf, hib, rfl⟩
+  | send j n =>
+    have hji : j ≠ i := fun h => hf (by simp [Op.client, h])
+    simp only [Sys.act]
+    repeat' (first
+      | exact ⟨hwf, hib, rfl⟩
+      | exact ⟨wf_modClient _ _ _ (wf_modClient _ _ _ hwf), hib, rfl⟩
+      | exact ⟨wf_onConn _ _ _ (wf_modClient _ _ _ hwf), by rw [(neutral_onConn _ _ _).backlog]; exact hib,
+               onConn_conn_ne _ i j _ hji⟩
+      | split)
+  | read j =>
+    have hji : j ≠ i := fun h => hf (by simp [Op.client, h])
+    simp only [Sys.act]
+    split
+    · exact ⟨hwf, hib, rfl⟩
+    · exact ⟨wf_modClient _ _ _ (wf_onConn _ _ _ hwf), by
+        show i ∉ (s.onConn j _).backlog
+        rw [(neutral_onConn _ _ _).backlog]; exact hib, onConn_conn_ne _ i j _ hji⟩
+  | drain j =>
+    have hji : j ≠ i := fun h => hf (by simp [Op.client, h])
+    simp only [Sys.act]
+    split
+    · exact ⟨hwf, hib, rfl⟩
+    · exact ⟨wf_modClient _ _ _ (wf_onConn _ _ _ hwf), by
+        show i ∉ (s.onConn j _).backlog
+        rw [(neutral_onConn _ _ _).backlog]; exact hib, onConn_conn_ne _ i j _ hji⟩
+  | fin j =>
+    have hji : j ≠ i := fun h => hf (by simp [Op.client, h])
+    simp only [Sys.act]
+    repeat' (first
+      | exact ⟨hwf, hib, rfl⟩
+      | exact ⟨wf_modClient _ _ _ hwf, hib, rfl⟩
+      | exact ⟨wf_onConn _ _ _ hwf, by rw [(neutral_onConn _ _ _).backlog]; exact hib,
+               onConn_conn_ne _ i j _ hji⟩
+      | split)
+  | close j =>
+    have hji : j ≠ i := fun h => hf (by simp [Op.client, h])
+    simp only [Sys.act]
+    repeat' (first
+      | exact ⟨hwf, hib, rfl⟩
+      | exact ⟨wf_modClient _ _ _ (wf_modClient _ _ _ hwf), hib, rfl⟩
+      | exact ⟨wf_onConn _ _ _ (wf_modClient _ _ _ hwf), by rw [(neutral_onConn _ _ _).backlog]; exact hib,
+               onConn_conn_ne _ i j _ hji⟩
+      | split)
+  | graceful =>
+    simp only [Sys.act]
+    repeat' (first
+      | exact ⟨hwf, hib, rfl⟩
+      | exact ⟨⟨hwf.keysNodup, hwf.backlogNodup, hwf.disjoint⟩, hib, rfl⟩
+      | split)
+  | wake => exact ⟨hwf, hib, rfl⟩
+
+/-! ### the main loop's reaction -/
+
+theorem foldl_modClient_conns {α : Type} (g : α → Nat) (f : α → Client → Client) (l : List α) (s : Sys) :
+    (l.foldl (fun s x => s.modClient (g x) (f x)) s).conns = s.conns ∧
+    (l.foldl (fun s x => s.modClient (g x) (f x)) s).backlog = s.backlog := by
+  induction l generalizing s with
+  | nil => exact ⟨rfl, rfl⟩
+  | cons x xs ih =>
+    have := ih (s.modClient (g x) (f x))
+    exact ⟨this.1, this.2⟩
+
+theorem markAccepted_frame (s : Sys) : s.markAccepted.conns = s.conns ∧ s.markAccepted.backlog = s.backlog := by
+  unfold Sys.markAccepted
+  exact foldl_modClient_conns (fun p : Nat × Conn => p.1) (fun _ cl => { cl with accepted := true }) s.conns s
+
+theorem resetBacklog_frame (s : Sys) : s.resetBacklog.conns = s.conns ∧ s.resetBacklog.backlog = s.backlog := by
+  unfold Sys.resetBacklog
+  exact foldl_modClient_conns (fun j : Nat => j) (fun _ cl => { cl with srvFin := true, reset := 1 }) s.backlog s
+
+theorem gracefulStart_frame (cfg : Cfg) (s : Sys) (i : Nat) (hwf : s.WF) (hib : i ∉ s.backlog) :
+    (s.gracefulStart cfg).WF ∧ i ∉ (s.gracefulStart cfg).backlog ∧ (s.gracefulStart cfg).conn i = s.conn i := by
+  unfold Sys.gracefulStart
+  split
+  · exact ⟨hwf, hib, rfl⟩
+  · have h := resetBacklog_frame s
+    refine ⟨⟨?_, ?_, ?_⟩, ?_, ?_⟩
+    · show (keys s.resetBacklog.conns).Nodup
+      rw [h.1]; exact hwf.keysNodup
+    · exact List.nodup_nil
+    · intro j hj; cases hj
+    · intro hj; cases hj
+    · show lookupConn s.resetBacklog.conns i = lookupConn s.conns i
+      rw [h.1]
+
+theorem gracefulPass_conn (cfg : Cfg) (s : Sys) (i : Nat) (hwf : s.WF) (hib : i ∉ s.backlog) :
+    (s.gracefulPass cfg).WF ∧ i ∉ (s.gracefulPass cfg).backlog ∧
+    (s.gracefulPass cfg).conn i = (s.conn i).bind (gracefulConn (s.gracefulStart cfg).expired) := by
+  unfold Sys.gracefulPass
+  simp only
+  have h1 := gracefulStart_frame cfg s i hwf hib
+  have h2 := sweep_conn (s.gracefulStart cfg) (gracefulConn (s.gracefulStart cfg).expired) i h1.1
+  have hb : i ∉ ((s.gracefulStart cfg).sweep (gracefulConn (s.gracefulStart cfg).expired)).backlog := by
+    rw [(neutral_sweep _ _).backlog]; exact h1.2.1
+  unfold Sys.exitIfIdle
+  split
+  · exact ⟨⟨h2.2.keysNodup, h2.2.backlogNodup, h2.2.disjoint⟩, hb, by rw [← h1.2.2]; exact h2.1⟩
+  · exact ⟨h2.2, hb, by rw [← h1.2.2]; exact h2.1⟩
+
+theorem accept_frame (cfg : Cfg) (s : Sys) (j i : Nat) (hwf : s.WF) (hji : j ≠ i) (hjn : s.conn j = none)
+    (hjb : j ∉ s.backlog) :
+    (Sys.accept cfg s j).WF ∧ (Sys.accept cfg s j).conn i = s.conn i := by
+  have hpush : (s.pushConn j { rts := s.now }).WF ∧ (s.pushConn j { rts := s.now }).conn i = s.conn i := by
+    refine ⟨⟨?_, hwf.backlogNodup, ?_⟩, ?_⟩
+    · show (keys ((j, _) :: s.conns)).Nodup
+      simp only [keys, List.map_cons, List.nodup_cons]
+      refine ⟨?_, hwf.keysNodup⟩
+      have := (lookup_none_iff s.conns j).mp hjn
+      simpa [keys] using this
+    · intro k hk
+      show lookupConn ((j, _) :: s.conns) k = none
+      have hkj : j ≠ k := fun h => hjb (h ▸ hk)
+      simp only [lookupConn, hkj, if_false]
+      exact hwf.disjoint k hk
+    · show lookupConn ((j, _) :: s.conns) i = lookupConn s.conns i
+      simp only [lookupConn, hji, if_false]
+  unfold Sys.accept
+  simp only
+  split
+  · exact ⟨wf_release _ _ hpush.1, (release_conn_ne _ i j hji).trans hpush.2⟩
+  · unfold Sys.acceptData
+    simp only
+    have h1 : (match (s.client j).req with
+        | some r => if (s.client j).pre > 0 then
+            (s.pushConn j { rts := s.now }).putConn j (recv cfg (s.pushConn j { rts := s.now }).now { rts := s.now } r (s.client j).pre)
+          else s.pushConn j { rts := s.now }
+        | none => s.pushConn j { rts := s.now }).WF ∧
+        (match (s.client j).req with
+        | some r => if (s.client j).pre > 0 then
+            (s.pushConn j { rts := s.now }).putConn j (recv cfg (s.pushConn j { rts := s.now }).now { rts := s.now } r (s.client j).pre)
+          else s.pushConn j { rts := s.now }
+        | none => s.pushConn j { rts := s.now }).conn i = s.conn i := by
+      split
+      · split
+        · exact ⟨wf_putConn _ _ _ hpush.1, (putConn_conn_ne _ i j _ hji).trans hpush.2⟩
+        · exact hpush
+      · exact hpush
+    split
+    · exact ⟨wf_onConn _ _ _ h1.1, (onConn_conn_ne _ i j _ hji).trans h1.2⟩
+    · exact h1
+
+theorem acceptMany_frame (cfg : Cfg) (k : Nat) (s : Sys) (i : Nat) (hwf : s.WF) (hib : i ∉ s.backlog) :
+    (acceptMany cfg k s).WF ∧ i ∉ (acceptMany cfg k s).backlog ∧ (acceptMany cfg k s).conn i = s.conn i := by
+  induction k generalizing s with
+  | zero => exact ⟨hwf, hib, rfl⟩
+  | succ k ih =>
+    unfold acceptMany
+    split
+    · exact ⟨hwf, hib, rfl⟩
+    · rename_i j rest hb
+      have hnd : (j :: rest).Nodup := hb ▸ hwf.backlogNodup
+      have hj : j ∉ rest := (List.nodup_cons.mp hnd).1
+      have hji : j ≠ i := by
+        intro h; apply hib; rw [hb, h]; exact List.mem_cons_self
+      have hwf1 : ({ s with backlog := rest } : Sys).WF :=
+        ⟨hwf.keysNodup, (List.nodup_cons.mp hnd).2, fun k hk => hwf.disjoint k (by rw [hb]; exact List.mem_cons_of_mem _ hk)⟩
+      have hjn : ({ s with backlog := rest } : Sys).conn j = none :=
+        hwf.disjoint j (by rw [hb]; exact List.mem_cons_self)
+      have ha := accept_frame cfg { s with backlog := rest } j i hwf1 hji hjn hj
+      have hib1 : i ∉ (Sys.accept cfg { s with backlog := rest } j).backlog := by
+        rw [accept_backlog]
+        intro h; apply hib; rw [hb]; exact List.mem_cons_of_mem _ h
+      have := ih _ ha.1 hib1
+      exact ⟨this.1, this.2.1, this.2.2.trans ha.2⟩
+
+theorem round_frame (cfg : Cfg) (s : Sys) (i : Nat) (hwf : s.WF) (hib : i ∉ s.backlog) :
+    (s.round cfg).WF ∧ i ∉ (s.round cfg).backlog ∧ (s.round cfg).conn i = s.conn i := by
+  unfold Sys.round
+  simp only
+  have hwf1 : ({ s with disabled := loadCheck s.curFds cfg.lowat cfg.hiwat s.lim s.disabled } : Sys).WF :=
+    ⟨hwf.keysNodup, hwf.backlogNodup, hwf.disjoint⟩
+  split
+  · exact acceptMany_frame cfg _ _ i hwf1 hib
+  · exact ⟨hwf1, hib, rfl⟩
+
+theorem admitLoop_frame (cfg : Cfg) (k : Nat) (s : Sys) (i : Nat) (hwf : s.WF) (hib : i ∉ s.backlog) :
+    (admitLoop cfg k s).WF ∧ i ∉ (admitLoop cfg k s).backlog ∧ (admitLoop cfg k s).conn i = s.conn i := by
+  induction k generalizing s with
+  | zero => exact ⟨hwf, hib, rfl⟩
+  | succ k ih =>
+    unfold admitLoop
+    have h1 := round_frame cfg s i hwf hib
+    have := ih _ h1.1 h1.2.1
+    exact ⟨this.1, this.2.1, this.2.2.trans h1.2.2⟩
+
+/-- what the main loop's reaction amounts to for a connection whose client does nothing -/
+def settleTrace (cfg : Cfg) (s : Sys) : List IdleEv :=
+  if s.exited then [] else if s.graceful then [.graceful (s.gracefulStart cfg).expired] else []
+
+theorem halt_frame (s : Sys) (i : Nat) (hwf : s.WF) (hib : i ∉ s.backlog) :
+    s.halt.WF ∧ i ∉ s.halt.backlog ∧ (s.halt.conn i = none ∨ s.halt.conn i = s.conn i) ∧
+    (s.halt.exited = true → s.halt.conns = []) := by
+  unfold Sys.halt
+  split
+  · refine ⟨⟨List.nodup_nil, List.nodup_nil, ?_⟩, ?_, Or.inl rfl, fun _ => rfl⟩
+    · intro j hj; exact absurd hj (List.not_mem_nil)
+    · exact List.not_mem_nil
+  · rename_i he
+    exact ⟨hwf, hib, Or.inr rfl, fun h => absurd h he⟩
+
+theorem settle_conn (cfg : Cfg) (s : Sys) (i : Nat) (hwf : s.WF) (hib : i ∉ s.backlog) :
+    (s.settle cfg).WF ∧ i ∉ (s.settle cfg).backlog ∧
+    ((s.settle cfg).conn i = none ∨ (s.settle cfg).conn i = runIdle cfg (s.conn i) (settleTrace cfg s)) ∧
+    ((s.settle cfg).exited = true → (s.settle cfg).conns = []) := by
+  unfold Sys.settle settleTrace
+  by_cases he : s.exited = true
+  · rw [if_pos he, if_pos he]
+    have := halt_frame s i hwf hib
+    refine ⟨this.1, this.2.1, ?_, this.2.2.2⟩
+    rcases this.2.2.1 with h | h
+    · exact Or.inl h
+    · right; rw [h]; cases s.conn i <;> rfl
+  · rw [if_neg he, if_neg he]
+    have hloop : (s.loopToRest cfg).WF ∧ i ∉ (s.loopToRest cfg).backlog ∧
+        (s.loopToRest cfg).conn i =
+          runIdle cfg (s.conn i) (if s.graceful then [.graceful (s.gracefulStart cfg).expired] else []) := by
+      unfold Sys.loopToRest
+      split
+      · have := gracefulPass_conn cfg s i hwf hib
+        refine ⟨this.1, this.2.1, this.2.2.trans ?_⟩
+        cases h : s.conn i with
+        | none => rfl
+        | some c =>
+          simp only [Option.bind, runIdle, idleStep]
+          cases gracefulConn (s.gracefulStart cfg).expired c <;> rfl
+      · have := admitLoop_frame cfg (2 * s.backlog.length + 3) s i hwf hib
+        refine ⟨this.1, this.2.1, this.2.2.trans ?_⟩
+        cases s.conn i <;> rfl
+    have hh := halt_frame (s.loopToRest cfg) i hloop.1 hloop.2.1
+    have hm := markAccepted_frame (s.loopToRest cfg).halt
+    refine ⟨⟨?_, ?_, ?_⟩, ?_, ?_, ?_⟩
+    · rw [hm.1]; exact hh.1.keysNodup
+    · rw [hm.2]; exact hh.1.backlogNodup
+    · intro j hj; rw [hm.2] at hj; rw [hm.1]; exact hh.1.disjoint j hj
+    · rw [hm.2]; exact hh.2.1
+    · simp only [Sys.conn, hm.1]
+      rcases hh.2.2.1 with h | h
+      · exact Or.inl h
+      · right
+        have : lookupConn (s.loopToRest cfg).halt.conns i = (s.loopToRest cfg).conn i := h
+        rw [this, hloop.2.2]
+        rfl
+    · intro hx
+      rw [hm.1]
+      apply hh.2.2.2
+      rw [← (neutral_markAccepted _).exited]; exact hx
+
+/-- the events a step means for a connection whose client does nothing -/
+def stepTrace (cfg : Cfg) (s : Sys) (op : Op) : List IdleEv :=
+  (match op with
+   | .tick n => if s.exited then [] else [.tick (s.now + n)]
+   | _ => []) ++ settleTrace cfg (s.act cfg op)
+
+theorem step_conn (cfg : Cfg) (s : Sys) (op : Op) (i : Nat) (hwf : s.WF) (hib : i ∉ s.backlog)
+    (hf : op.foreign i) :
+    (s.step cfg op).WF ∧ i ∉ (s.step cfg op).backlog ∧
+    ((s.step cfg op).conn i = none ∨ (s.step cfg op).conn i = runIdle cfg (s.conn i) (stepTrace cfg s op)) ∧
+    ((s.step cfg op).exited = true → (s.step cfg op).conns = []) := by
+  have ha := act_conn cfg s op i hwf hib hf
+  have hs := settle_conn cfg (s.act cfg op) i ha.1 ha.2.1
+  unfold Sys.step
+  refine ⟨hs.1, hs.2.1, ?_, hs.2.2.2⟩
+  rcases hs.2.2.1 with h | h
+  · exact Or.inl h
+  · right
+    rw [h, ha.2.2]
+    unfold stepTrace
+    rw [runIdle_append]
+    congr 1
+    cases op with
+    | tick n =>
+      simp only
+      split
+      · cases s.conn i <;> rfl
+      · cases h' : s.conn i with
+        | none => rfl
+        | some c =>
+          simp only [Option.bind, runIdle, idleStep]
+          cases tickConn cfg (s.now + n) c <;> rfl
+    | _ => cases s.conn i <;> rfl
+
+/-! ### whole scripts -/
+
+def runTrace (cfg : Cfg) : Sys → List Op → List IdleEv
+  | _, [] => []
+  | s, op :: rest => stepTrace cfg s op ++ runTrace cfg (s.step cfg op) rest
+
+theorem run_cons (cfg : Cfg) (s : Sys) (op : Op) (ops : List Op) :
+    s.run cfg (op :: ops) = (s.step cfg op).run cfg ops := rfl
+
+theorem run_append (cfg : Cfg) (s : Sys) (l1 l2 : List Op) :
+    s.run cfg (l1 ++ l2) = (s.run cfg l1).run cfg l2 := by
+  simp [Sys.run, List.foldl_append]
+
+theorem runIdle_none_of (cfg : Cfg) (oc : Option Conn) (es : List IdleEv) (h : oc = none) :
+    runIdle cfg oc es = none := by rw [h, runIdle_none]
+
+/-- a script none of whose actions is client `i`'s is, for `i`'s connection, a run of idle events -/
+theorem run_conn (cfg : Cfg) (s : Sys) (ops : List Op) (i : Nat) (hwf : s.WF) (hib : i ∉ s.backlog)
+    (hx : s.exited = true → s.conns = []) (hf : ∀ op ∈ ops, op.foreign i) :
+    (s.run cfg ops).WF ∧ i ∉ (s.run cfg ops).backlog ∧
+    ((s.run cfg ops).conn i = none ∨ (s.run cfg ops).conn i = runIdle cfg (s.conn i) (runTrace cfg s ops)) ∧
+    ((s.run cfg ops).exited = true → (s.run cfg ops).conns = []) := by
+  induction ops generalizing s with
+  | nil =>
+    refine ⟨hwf, hib, Or.inr ?_, hx⟩
+    simp only [Sys.run, List.foldl_nil, runTrace]
+    cases s.conn i <;> rfl
+  | cons op rest ih =>
+    have h1 := step_conn cfg s op i hwf hib (hf op List.mem_cons_self)
+    have h2 := ih (s.step cfg op) h1.1 h1.2.1 h1.2.2.2 (fun o ho => hf o (List.mem_cons_of_mem _ ho))
+    rw [run_cons]
+    refine ⟨h2.1, h2.2.1, ?_, h2.2.2.2⟩
+    rcases h2.2.2.1 with h | h
+    · exact Or.inl h
+    · rcases h1.2.2.1 with h' | h'
+      · left; rw [h, h', runIdle_none]
+      · right; rw [h, h']; simp only [runTrace]; rw [runIdle_append]
+
+theorem run_conn_none (cfg : Cfg) (s : Sys) (ops : List Op) (i : Nat) (hwf : s.WF) (hib : i ∉ s.backlog)
+    (hx : s.exited = true → s.conns = []) (hf : ∀ op ∈ ops, op.foreign i) (hn : s.conn i = none) :
+    (s.run cfg ops).conn i = none := by
+  rcases (run_conn cfg s ops i hwf hib hx hf).2.2.1 with h | h
+  · exact h
+  · rw [h, hn, runIdle_none]
+
+/-! ### the clock -/
+
+def Op.dt : Op → Nat
+  | .tick n => n
+  | _ => 0
+
+def dur (ops : List Op) : Nat := (ops.map Op.dt).sum
+
+theorem act_now_same (cfg : Cfg) (s : Sys) (op : Op) (h : ∀ n, op ≠ .tick n) : (s.act cfg op).now = s.now := by
+  cases op with
+  | tick n => exact absurd rfl (h n)
+  | open_ i => simp only [Sys.act]; repeat' (first | rfl | split)
+  | prepare i r => simp only [Sys.act]; repeat' (first | rfl | split)
+  | send i n =>
+    simp only [Sys.act]
+    repeat' (first | rfl | exact (neutral_onConn _ _ _).now | split)
+  | read i =>
+    simp only [Sys.act]
+    repeat' (first | rfl | exact ((neutral_onConn _ _ _).trans (neutral_modClient _ _ _)).now | split)
+  | drain i =>
+    simp only [Sys.act]
+    repeat' (first | rfl | exact ((neutral_onConn _ _ _).trans (neutral_modClient _ _ _)).now | split)
+  | fin i =>
+    simp only [Sys.act]
+    repeat' (first | rfl | exact (neutral_onConn _ _ _).now | split)
+  | close i =>
+    simp only [Sys.act]
+    repeat' (first | rfl | exact (neutral_onConn _ _ _).now | split)
+  | graceful => simp only [Sys.act]; repeat' (first | rfl | split)
+  | wake => rfl
+
+theorem act_now (cfg : Cfg) (s : Sys) (op : Op) : (s.act cfg op).now = s.now + op.dt := by
+  cases op with
+  | tick n =>
+    simp only [Sys.act, Op.dt]
+    split
+    · rfl
+    · exact (neutral_sweep _ _).now
+  | open_ i => rw [act_now_same cfg s _ (fun n h => by cases h)]; simp [Op.dt]
+  | prepare i r => rw [act_now_same cfg s _ (fun n h => by cases h)]; simp [Op.dt]
+  | send i n => rw [act_now_same cfg s _ (fun n h => by cases h)]; simp [Op.dt]
+  | read i => rw [act_now_same cfg s _ (fun n h => by cases h)]; simp [Op.dt]
+  | drain i => rw [act_now_same cfg s _ (fun n h => by cases h)]; simp [Op.dt]
+  | fin i => rw [act_now_same cfg s _ (fun n h => by cases h)]; simp [Op.dt]
+  | close i => rw [act_now_same cfg s _ (fun n h => by cases h)]; simp [Op.dt]
+  | graceful => rw [act_now_same cfg s _ (fun n h => by cases h)]; simp [Op.dt]
+  | wake => rw [act_now_same cfg s _ (fun n h => by cases h)]; simp [Op.dt]
+
+theorem acceptMany_now (cfg : Cfg) (k : Nat) (s : Sys) : (acceptMany cfg k s).now = s.now := by
+  induction k generalizing s with
+  | zero => rfl
+  | succ k ih =>
+    unfold acceptMany
+    split
+    · rfl
+    · rw [ih, (accept_spec cfg _ _).now]; rfl
+
+theorem admitLoop_now (cfg : Cfg) (k : Nat) (s : Sys) : (admitLoop cfg k s).now = s.now := by
+  induction k generalizing s with
+  | zero => rfl
+  | succ k ih =>
+    unfold admitLoop
+    rw [ih]
+    unfold Sys.round
+    simp only
+    split
+    · rw [acceptMany_now]
+    · rfl
+
+theorem gracefulStart_now (cfg : Cfg) (s : Sys) : (s.gracefulStart cfg).now = s.now := by
+  unfold Sys.gracefulStart
+  split
+  · rfl
+  · have := (neutral_resetBacklog s).now
+    simpa [Sys.closeListen] using this
+
+theorem settle_now (cfg : Cfg) (s : Sys) : (s.settle cfg).now = s.now := by
+  have hhalt : ∀ t : Sys, t.halt.now = t.now := by
+    intro t; unfold Sys.halt; split <;> rfl
+  unfold Sys.settle
+  split
+  · exact hhalt s
+  · rw [(neutral_markAccepted _).now, hhalt]
+    unfold Sys.loopToRest
+    split
+    · unfold Sys.gracefulPass
+      simp only
+      have : ∀ t : Sys, t.exitIfIdle.now = t.now := by
+        intro t; unfold Sys.exitIfIdle; split <;> rfl
+      rw [this, (neutral_sweep _ _).now, gracefulStart_now]
+    · exact admitLoop_now cfg _ s
+
+theorem step_now (cfg : Cfg) (s : Sys) (op : Op) : (s.step cfg op).now = s.now + op.dt := by
+  unfold Sys.step
+  rw [settle_now, act_now]
+
+theorem run_now (cfg : Cfg) (s : Sys) (ops : List Op) : (s.run cfg ops).now = s.now + dur ops := by
+  induction ops generalizing s with
+  | nil => simp [Sys.run, dur]
+  | cons op rest ih =>
+    rw [run_cons, ih, step_now]
+    simp only [dur, List.map_cons, List.sum_cons]
+    omega
+
+/-- every sweep a script causes happens at a second the clock has reached by the end of the script -/
+theorem runTrace_ticks_le (cfg : Cfg) (s : Sys) (ops : List Op) :
+    ∀ t, IdleEv.tick t ∈ runTrace cfg s ops → t ≤ (s.run cfg ops).now := by
+  induction ops generalizing s with
+  | nil => intro t ht; simp [runTrace] at ht
+  | cons op rest ih =>
+    intro t ht
+    simp only [runTrace, List.mem_append] at ht
+    rw [run_cons]
+    rcases ht with ht | ht
+    · have hstep : t = (s.step cfg op).now := by
+        unfold stepTrace at ht
+        rw [List.mem_append] at ht
+        rcases ht with ht | ht
+        · cases op with
+          | tick n =>
+            simp only at ht
+            split at ht
+            · simp at ht
+            · simp at ht
+              rw [step_now]; simp [Op.dt, ht]
+          | _ => simp at ht
+        · unfold settleTrace at ht
+          split at ht
+          · simp at ht
+          · split at ht <;> simp at ht
+      rw [hstep, run_now]
+      have : (0 : Int) ≤ (dur rest : Int) := Int.natCast_nonneg _
+      omega
+    · exact ih _ t ht
+
+theorem runTrace_append (cfg : Cfg) (s : Sys) (l1 l2 : List Op) :
+    runTrace cfg s (l1 ++ l2) = runTrace cfg s l1 ++ runTrace cfg (s.run cfg l1) l2 := by
+  induction l1 generalizing s with
+  | nil => rfl
+  | cons op rest ih => simp only [List.cons_append, runTrace, run_cons, ih, List.append_assoc]
+
+theorem closedBy_none (a : Int) : ClosedBy a none := fun c h => by cases h
+
+/-- system-level liveness, in the form used by the property theorem -/
+theorem sys_idle_closed (cfg : Cfg) (s : Sys) (i : Nat) (c : Conn) (hwf : s.WF) (hc : s.conn i = some c)
+    (hr : c.Rest) (hx : s.exited = false)
+    (ops1 ops2 ops3 : List Op) (n1 n2 : Nat)
+    (hf1 : ∀ op ∈ ops1, op.foreign i) (hf2 : ∀ op ∈ ops2, op.foreign i) (hf3 : ∀ op ∈ ops3, op.foreign i)
+    (ha : c.deadline cfg < s.now + dur ops1 + n1) (hb : lingerTimeoutH1 < (dur ops2 : Int) + n2) :
+    (s.run cfg (ops1 ++ [.tick n1] ++ ops2 ++ [.tick n2] ++ ops3)).conn i = none := by
+  have hib : i ∉ s.backlog := by
+    intro h
+    have := hwf.disjoint i h
+    simp only [Sys.conn] at hc
+    rw [hc] at this; cases this
+  have hx0 : s.exited = true → s.conns = [] := fun h => by rw [hx] at h; cases h
+  have hft : ∀ n, (Op.tick n).foreign i := fun n => by simp [Op.foreign, Op.client]
+  -- phase 1: up to the decisive tick
+  have r1 := run_conn cfg s ops1 i hwf hib hx0 hf1
+  generalize hs1 : s.run cfg ops1 = s1 at r1
+  have hnow1 : s1.now = s.now + dur ops1 := by rw [← hs1]; exact run_now cfg s ops1
+  let a : Int := s1.now + n1
+  have r1' := step_conn cfg s1 (.tick n1) i r1.1 r1.2.1 (hft n1)
+  generalize hs1' : s1.step cfg (.tick n1) = s1' at r1'
+  have hnow1' : s1'.now = a := by rw [← hs1']; rw [step_now]; rfl
+  have hclosed1 : ClosedBy a (s1'.conn i) := by
+    rcases r1'.2.2.1 with h | h
+    · rw [h]; exact closedBy_none a
+    · rw [h]
+      by_cases hex : s1.exited = true
+      · have : s1.conn i = none := by simp [Sys.conn, r1.2.2.2 hex, lookupConn]
+        rw [this, runIdle_none]; exact closedBy_none a
+      · rcases r1.2.2.1 with h1 | h1
+        · rw [h1, runIdle_none]; exact closedBy_none a
+        · rw [h1, hc]
+          have hw : Waiting cfg (c.deadline cfg) a (some c) := by
+            intro c0 h0
+            cases h0
+            refine ⟨hr, ?_⟩
+            by_cases hs : c.st = .close
+            · refine Or.inr ⟨hs, ?_⟩
+              have hd : c.deadline cfg < a := by show _ < s1.now + n1; rw [hnow1]; exact ha
+              simp only [Conn.deadline, hs] at hd
+              have : (0 : Int) ≤ lingerTimeoutH1 := by decide
+              omega
+            · exact Or.inl ⟨hs, rfl⟩
+          have hticks : ∀ t, IdleEv.tick t ∈ runTrace cfg s ops1 → t ≤ a := by
+            intro t ht
+            have := runTrace_ticks_le cfg s ops1 t ht
+            rw [hs1] at this
+            have : (0 : Int) ≤ (n1 : Int) := Int.natCast_nonneg _
+            show t ≤ s1.now + n1
+            omega
+          have hw1 := waiting_run cfg (c.deadline cfg) a (some c) (runTrace cfg s ops1) hticks hw
+          have hst : stepTrace cfg s1 (.tick n1) = [.tick a] ++ settleTrace cfg (s1.act cfg (.tick n1)) := by
+            simp [stepTrace, hex]; rfl
+          rw [hst, runIdle_append]
+          have hd : c.deadline cfg < a := by show _ < s1.now + n1; rw [hnow1]; exact ha
+          exact closedBy_run cfg a _ _ (waiting_tick cfg _ a _ hd hw1)
+  -- phase 2: lingering
+  have r2 := run_conn cfg s1' ops2 i r1'.1 r1'.2.1 r1'.2.2.2 hf2
+  generalize hs2 : s1'.run cfg ops2 = s2 at r2
+  have hnow2 : s2.now = a + dur ops2 := by rw [← hs2, run_now, hnow1']
+  have hclosed2 : ClosedBy a (s2.conn i) := by
+    rcases r2.2.2.1 with h | h
+    · rw [h]; exact closedBy_none a
+    · rw [h]; exact closedBy_run cfg a _ _ hclosed1
+  -- the second tick
+  have r2' := step_conn cfg s2 (.tick n2) i r2.1 r2.2.1 (hft n2)
+  generalize hs2' : s2.step cfg (.tick n2) = s2' at r2'
+  have hnone : s2'.conn i = none := by
+    rcases r2'.2.2.1 with h | h
+    · exact h
+    · rw [h]
+      by_cases hex : s2.exited = true
+      · have : s2.conn i = none := by simp [Sys.conn, r2.2.2.2 hex, lookupConn]
+        rw [this, runIdle_none]
+      · have hst : stepTrace cfg s2 (.tick n2) = [.tick (s2.now + n2)] ++ settleTrace cfg (s2.act cfg (.tick n2)) := by
+          simp [stepTrace, hex]
+        rw [hst, runIdle_append]
+        have hbb : a + lingerTimeoutH1 < s2.now + n2 := by rw [hnow2]; omega
+        rw [closedBy_tick cfg a (s2.now + n2) _ hbb hclosed2, runIdle_none]
+  -- the rest
+  have hfinal := run_conn_none cfg s2' ops3 i r2'.1 r2'.2.1 r2'.2.2.2 hf3 hnone
+  have : s.run cfg (ops1 ++ [.tick n1] ++ ops2 ++ [.tick n2] ++ ops3) = s2'.run cfg ops3 := by
+    rw [run_append, run_append, run_append, run_append, hs1]
+    simp only [Sys.run, List.foldl_cons, List.foldl_nil] at hs1' hs2 hs2' ⊢
+    rw [hs1', hs2, hs2']
+  rw [this]
+  exact hfinal
+
+/-! ## every connection of a reachable state is at rest -/
+
+theorem rest_toClose (now : Int) (c c' : Conn) (h : toClose now c = some c') : c'.Rest := by
+  unfold toClose at h
+  split at h
+  · cases h
+  · cases h; exact Or.inr (Or.inr (Or.inr rfl))
+
+theorem rest_finishResponse (now : Int) (c c' : Conn) (h : finishResponse now c = some c') : c'.Rest := by
+  unfold finishResponse at h
+  split at h
+  · cases h; exact Or.inl ⟨rfl, rfl⟩
+  · exact rest_toClose now c c' h
+
+theorem rest_respond (cfg : Cfg) (now : Int) (hnow : now ≠ 0) (c : Conn) (st : Nat) (big comp ka : Bool) (c' : Conn)
+    (h : (respond cfg now c st big comp ka).1 = some c') : c'.Rest := by
+  unfold respond at h
+  simp only at h
+  split at h
+  · cases h; exact Or.inr (Or.inr (Or.inl ⟨rfl, rfl, hnow⟩))
+  · exact rest_finishResponse now _ c' h
+
+theorem rest_bodyStep (cfg : Cfg) (now : Int) (hnow : now ≠ 0) (c : Conn) (add : Nat) (c' : Conn)
+    (h : (bodyStep cfg now c add).1 = some c') : c'.Rest := by
+  unfold bodyStep at h
+  simp only at h
+  split at h
+  · exact rest_respond cfg now hnow _ _ _ _ _ c' h
+  · split at h
+    · exact rest_respond cfg now hnow _ _ _ _ _ c' h
+    · cases h; exact Or.inr (Or.inl ⟨rfl, rfl⟩)
+  · split at h
+    · exact rest_respond cfg now hnow _ _ _ _ _ c' h
+    · split at h
+      · exact rest_respond cfg now hnow _ _ _ _ _ c' h
+      · cases h; exact Or.inr (Or.inl ⟨rfl, rfl⟩)
+
+theorem rest_recv (cfg : Cfg) (now : Int) (hnow : now ≠ 0) (c : Conn) (r : Req) (n : Nat) (hr : c.Rest) (c' : Conn)
+    (h : (recv cfg now c r n).1 = some c') : c'.Rest := by
+  unfold recv at h
+  split at h
+  · rename_i hs
+    have hi : c.inEv = true := by
+      rcases hr with ⟨_, hi⟩ | ⟨hs', _⟩ | ⟨hs', _⟩ | hs'
+      · exact hi
+      all_goals (rw [hs] at hs'; cases hs')
+    simp only at h
+    split at h
+    · split at h
+      · exact rest_respond cfg now hnow _ _ _ _ _ c' h
+      · cases h; exact Or.inl ⟨hs, hi⟩
+    · split at h
+      · exact rest_respond cfg now hnow _ _ _ _ _ c' h
+      · split at h
+        · exact rest_respond cfg now hnow _ _ _ _ _ c' h
+        · split at h
+          · exact rest_respond cfg now hnow _ _ _ _ _ c' h
+          · exact rest_bodyStep cfg now hnow _ _ c' h
+        · exact rest_bodyStep cfg now hnow _ _ c' h
+  · exact rest_bodyStep cfg now hnow _ _ c' h
+  · cases h; exact hr
+
+theorem rest_clientRead (now : Int) (hnow : now ≠ 0) (c : Conn) (hr : c.Rest) : (clientRead now c).Rest := by
+  unfold clientRead
+  split
+  · rename_i hs
+    rcases hr with ⟨hs', _⟩ | ⟨hs', _⟩ | ⟨_, hi, _⟩ | hs'
+    · rw [hs] at hs'; cases hs'
+    · rw [hs] at hs'; cases hs'
+    · exact Or.inr (Or.inr (Or.inl ⟨hs, hi, hnow⟩))
+    · rw [hs] at hs'; cases hs'
+  · exact hr
+
+theorem rest_clientDrain (now : Int) (c : Conn) (hr : c.Rest) (c' : Conn) (h : clientDrain now c = some c') :
+    c'.Rest := by
+  unfold clientDrain at h
+  split at h
+  · exact rest_finishResponse now _ c' h
+  · cases h; exact hr
+
+theorem rest_finConn (full : Bool) (c : Conn) (hr : c.Rest) (c' : Conn) (h : finConn full c = some c') : c'.Rest := by
+  unfold finConn at h
+  split at h
+  · rename_i hs
+    cases h
+    rcases hr with ⟨hs', _⟩ | ⟨hs', _⟩ | ⟨_, hi, hw⟩ | hs'
+    · rw [hs.1] at hs'; cases hs'
+    · rw [hs.1] at hs'; cases hs'
+    · exact Or.inr (Or.inr (Or.inl ⟨hs.1, hi, hw⟩))
+    · rw [hs.1] at hs'; cases hs'
+  · cases h
+
+theorem rest_tickConn (cfg : Cfg) (now : Int) (c : Conn) (hr : c.Rest) (c' : Conn) (h : tickConn cfg now c = some c') :
+    c'.Rest := by
+  unfold tickConn at h
+  simp only at h
+  split at h
+  · split at h
+    · cases h
+    · exact rest_toClose now c c' h
+  · cases h; exact hr
+
+theorem rest_gracefulConn (e : Bool) (c : Conn) (hr : c.Rest) (c' : Conn) (h : gracefulConn e c = some c') :
+    c'.Rest := by
+  rcases gracefulConn_cases e c with h' | ⟨h', _⟩
+  · rw [h'] at h; cases h
+  · rw [h'] at h; cases h
+    simpa [Conn.Rest] using hr
+
+/-- every connection is at rest -/
+def Sys.AllRest (s : Sys) : Prop := ∀ j c, s.conn j = some c → c.Rest
+
+theorem allRest_release (s : Sys) (j : Nat) (hw : s.WF) (h : s.AllRest) : (s.release j).AllRest := by
+  intro k c hk
+  by_cases hkj : j = k
+  · subst hkj; rw [release_conn_self s j hw] at hk; cases hk
+  · rw [release_conn_ne s k j hkj] at hk; exact h k c hk
+
+theorem allRest_putConn (s : Sys) (j : Nat) (r : CRes) (c0 : Conn) (hw : s.WF) (h : s.AllRest)
+    (hc : s.conn j = some c0) (hr : ∀ c', r.1 = some c' → c'.Rest) : (s.putConn j r).AllRest := by
+  intro k c hk
+  by_cases hkj : j = k
+  · subst hkj
+    rw [putConn_conn_self s j r c0 hw hc] at hk
+    exact hr c hk
+  · rw [putConn_conn_ne s k j r hkj] at hk; exact h k c hk
+
+theorem allRest_onConn (s : Sys) (j : Nat) (f : Conn → CRes) (hw : s.WF) (h : s.AllRest)
+    (hf : ∀ c, c.Rest → ∀ c', (f c).1 = some c' → c'.Rest) : (s.onConn j f).AllRest := by
+  unfold Sys.onConn
+  split
+  · exact h
+  · rename_i c hc
+    exact allRest_putConn s j (f c) c hw h hc (hf c (h j c hc))
+
+theorem allRest_sweep (s : Sys) (f : Conn → Option Conn) (hw : s.WF) (h : s.AllRest)
+    (hf : ∀ c, c.Rest → ∀ c', f c = some c' → c'.Rest) : (s.sweep f).AllRest := by
+  intro k c hk
+  rw [(sweep_conn s f k hw).1] at hk
+  cases hc : s.conn k with
+  | none => rw [hc] at hk; cases hk
+  | some c0 => rw [hc] at hk; exact hf c0 (h k c0 hc) c hk
+
+theorem allRest_act (cfg : Cfg) (s : Sys) (op : Op) (hw : s.WF) (hn : 0 < s.now) (h : s.AllRest) :
+    (s.act cfg op).AllRest := by
+  have hnow : s.now ≠ 0 := by omega
+  cases op with
+  | tick n =>
+    simp only [Sys.act]
+    split
+    · exact h
+    · exact allRest_sweep _ _ ⟨hw.keysNodup, hw.backlogNodup, hw.disjoint⟩ h
+        (fun c hr c' hc => rest_tickConn cfg _ c hr c' hc)
+  | open_ j => simp only [Sys.act]; repeat' (first | exact h | split)
+  | prepare j r => simp only [Sys.act]; repeat' (first | exact h | split)
+  | send j n =>
+    simp only [Sys.act]
+    repeat' (first
+      | exact h
+      | exact allRest_onConn _ _ _ (wf_modClient _ _ _ hw) h (fun c hr c' hc => rest_recv cfg _ hnow c _ _ hr c' hc)
+      | split)
+  | read j =>
+    simp only [Sys.act]
+    split
+    · exact h
+    · have := allRest_onConn s j (fun c => (some (clientRead s.now c), [])) hw h
+        (fun c hr c' hc => by cases hc; exact rest_clientRead s.now hnow c hr)
+      exact this
+  | drain j =>
+    simp only [Sys.act]
+    split
+    · exact h
+    · have := allRest_onConn s j (fun c => (clientDrain s.now c, [])) hw h
+        (fun c hr c' hc => rest_clientDrain s.now c hr c' hc)
+      exact this
+  | fin j =>
+    simp only [Sys.act]
+    repeat' (first
+      | exact h
+      | exact allRest_onConn _ _ _ hw h (fun c hr c' hc => rest_finConn false c hr c' hc)
+      | split)
+  | close j =>
+    simp only [Sys.act]
+    repeat' (first
+      | exact h
+      | exact allRest_onConn _ _ _ (wf_modClient _ _ _ hw) h (fun c hr c' hc => rest_finConn true c hr c' hc)
+      | split)
+  | graceful => simp only [Sys.act]; repeat' (first | exact h | split)
+  | wake => exact h
+
+theorem allRest_accept (cfg : Cfg) (s : Sys) (j : Nat) (hw : s.WF) (hn : 0 < s.now) (h : s.AllRest)
+    (hjn : s.conn j = none) (hjb : j ∉ s.backlog) :
+    (Sys.accept cfg s j).WF ∧ (Sys.accept cfg s j).AllRest := by
+  have hnow : s.now ≠ 0 := by omega
+  have hwf := (accept_frame cfg s j (j + 1) hw (by omega) hjn hjb).1
+  refine ⟨hwf, ?_⟩
+  have hpw : (s.pushConn j { rts := s.now }).WF := by
+    refine ⟨?_, hw.backlogNodup, ?_⟩
+    · show (keys ((j, _) :: s.conns)).Nodup
+      simp only [keys, List.map_cons, List.nodup_cons]
+      refine ⟨?_, hw.keysNodup⟩
+      have := (lookup_none_iff s.conns j).mp hjn
+      simpa [keys] using this
+    · intro k hk
+      show lookupConn ((j, _) :: s.conns) k = none
+      have hkj : j ≠ k := fun h => hjb (h ▸ hk)
+      simp only [lookupConn, hkj, if_false]
+      exact hw.disjoint k hk
+  have hpc : (s.pushConn j { rts := s.now }).conn j = some { rts := s.now } := by
+    show lookupConn ((j, _) :: s.conns) j = _
+    simp [lookupConn]
+  have hpr : (s.pushConn j { rts := s.now }).AllRest := by
+    intro k c hk
+    have hk' : lookupConn ((j, ({ rts := s.now } : Conn)) :: s.conns) k = some c := hk
+    unfold lookupConn at hk'
+    split at hk'
+    · cases hk'; exact Or.inl ⟨rfl, rfl⟩
+    · exact h k c hk'
+  unfold Sys.accept
+  simp only
+  split
+  · exact allRest_release _ j hpw hpr
+  · unfold Sys.acceptData
+    simp only
+    have h1 : (match (s.client j).req with
+        | some r => if (s.client j).pre > 0 then
+            (s.pushConn j { rts := s.now }).putConn j (recv cfg (s.pushConn j { rts := s.now }).now { rts := s.now } r (s.client j).pre)
+          else s.pushConn j { rts := s.now }
+        | none => s.pushConn j { rts := s.now }).WF ∧
+        (match (s.client j).req with
+        | some r => if (s.client j).pre > 0 then
+            (s.pushConn j { rts := s.now }).putConn j (recv cfg (s.pushConn j { rts := s.now }).now { rts := s.now } r (s.client j).pre)
+          else s.pushConn j { rts := s.now }
+        | none => s.pushConn j { rts := s.now }).AllRest := by
+      split
+      · split
+        · refine ⟨wf_putConn _ _ _ hpw, allRest_putConn _ j _ _ hpw hpr hpc ?_⟩
+          intro c' hc'
+          exact rest_recv cfg s.now hnow _ _ _ (Or.inl ⟨rfl, rfl⟩) c' hc'
+        · exact ⟨hpw, hpr⟩
+      · exact ⟨hpw, hpr⟩
+    split
+    · exact allRest_onConn _ j _ h1.1 h1.2 (fun c hr c' hc => rest_finConn false c hr c' hc)
+    · exact h1.2
+
+theorem acceptMany_good (cfg : Cfg) (k : Nat) (s : Sys) (hw : s.WF) (hn : 0 < s.now) (h : s.AllRest) :
+    (acceptMany cfg k s).WF ∧ (acceptMany cfg k s).AllRest := by
+  induction k generalizing s with
+  | zero => exact ⟨hw, h⟩
+  | succ k ih =>
+    unfold acceptMany
+    split
+    · exact ⟨hw, h⟩
+    · rename_i j rest hb
+      have hnd : (j :: rest).Nodup := hb ▸ hw.backlogNodup
+      have hj : j ∉ rest := (List.nodup_cons.mp hnd).1
+      have hwf1 : ({ s with backlog := rest } : Sys).WF :=
+        ⟨hw.keysNodup, (List.nodup_cons.mp hnd).2, fun k hk => hw.disjoint k (by rw [hb]; exact List.mem_cons_of_mem _ hk)⟩
+      have hjn : ({ s with backlog := rest } : Sys).conn j = none :=
+        hw.disjoint j (by rw [hb]; exact List.mem_cons_self)
+      have ha := allRest_accept cfg { s with backlog := rest } j hwf1 hn h hjn hj
+      have hn' : 0 < (Sys.accept cfg { s with backlog := rest } j).now := by
+        rw [(accept_spec cfg _ _).now]; exact hn
+      exact ih _ ha.1 hn' ha.2
+
+theorem admitLoop_good (cfg : Cfg) (k : Nat) (s : Sys) (hw : s.WF) (hn : 0 < s.now) (h : s.AllRest) :
+    (admitLoop cfg k s).WF ∧ (admitLoop cfg k s).AllRest := by
+  induction k generalizing s with
+  | zero => exact ⟨hw, h⟩
+  | succ k ih =>
+    unfold admitLoop
+    have h1 : (s.round cfg).WF ∧ (s.round cfg).AllRest ∧ 0 < (s.round cfg).now := by
+      unfold Sys.round
+      simp only
+      have hwf1 : ({ s with disabled := loadCheck s.curFds cfg.lowat cfg.hiwat s.lim s.disabled } : Sys).WF :=
+        ⟨hw.keysNodup, hw.backlogNodup, hw.disjoint⟩
+      split
+      · have := acceptMany_good cfg (acceptCount s.lim) _ hwf1 hn h
+        exact ⟨this.1, this.2, by rw [acceptMany_now]; exact hn⟩
+      · exact ⟨hwf1, h, hn⟩
+    exact ih _ h1.1 h1.2.2 h1.2.1
+
+theorem gracefulStart_conns (cfg : Cfg) (s : Sys) : (s.gracefulStart cfg).conns = s.conns := by
+  unfold Sys.gracefulStart
+  split
+  · rfl
+  · exact (resetBacklog_frame s).1
+
+theorem mem_le_sum (l : List Nat) (x : Nat) (h : x ∈ l) : x ≤ l.sum := by
+  induction l with
+  | nil => cases h
+  | cons y ys ih =>
+    simp only [List.sum_cons]
+    rcases List.mem_cons.mp h with rfl | h
+    · omega
+    · have := ih h; omega
+
+/-- there is always a client id that is neither waiting nor the one acting -/
+theorem exists_fresh (l : List Nat) (op : Op) : ∃ i, i ∉ l ∧ op.foreign i := by
+  refine ⟨l.sum + op.client.getD 0 + 1, ?_, ?_⟩
+  · intro h; have := mem_le_sum l _ h; omega
+  · unfold Op.foreign
+    cases hc : op.client with
+    | none => simp
+    | some j => simp; omega
+
+/-- the liveness theorem's requirements on a state: consistent tables, a clock past zero (0 means
+    "unset" for write_request_ts), a returned main loop serves nothing, every connection at rest -/
+structure Sys.Good (s : Sys) : Prop where
+  wf : s.WF
+  now : 0 < s.now
+  halted : s.exited = true → s.conns = []
+  rest : s.AllRest
+
+theorem good_step (cfg : Cfg) (s : Sys) (op : Op) (h : s.Good) : (s.step cfg op).Good := by
+  obtain ⟨i, hib, hf⟩ := exists_fresh s.backlog op
+  have hstep := step_conn cfg s op i h.wf hib hf
+  have hact := act_conn cfg s op i h.wf hib hf
+  have hra := allRest_act cfg s op h.wf h.now h.rest
+  have hna : 0 < (s.act cfg op).now := by
+    rw [act_now]; have := h.now; have : (0 : Int) ≤ (op.dt : Int) := Int.natCast_nonneg _; omega
+  refine ⟨hstep.1, ?_, hstep.2.2.2, ?_⟩
+  · rw [step_now]; have := h.now; have : (0 : Int) ≤ (op.dt : Int) := Int.natCast_nonneg _; omega
+  · -- every connection after the main loop's reaction is at rest
+    unfold Sys.step
+    generalize s.act cfg op = s1 at hact hra hna ⊢
+    have hhalt : ∀ t : Sys, t.AllRest → t.halt.AllRest := by
+      intro t ht
+      unfold Sys.halt
+      split
+      · intro k c hk; simp [Sys.conn, lookupConn] at hk
+      · exact ht
+    have hmark : ∀ t : Sys, t.AllRest → t.markAccepted.AllRest := by
+      intro t ht k c hk
+      simp only [Sys.conn, (markAccepted_frame t).1] at hk
+      exact ht k c hk
+    unfold Sys.settle
+    split
+    · exact hhalt s1 hra
+    · apply hmark
+      apply hhalt
+      unfold Sys.loopToRest
+      split
+      · unfold Sys.gracefulPass
+        simp only
+        have hw1 : (s1.gracefulStart cfg).WF := by
+          obtain ⟨i2, hib2, _⟩ := exists_fresh s1.backlog .wake
+          exact (gracefulStart_frame cfg s1 i2 hact.1 hib2).1
+        have hr1 : (s1.gracefulStart cfg).AllRest := by
+          intro k c hk
+          simp only [Sys.conn, gracefulStart_conns] at hk
+          exact hra k c hk
+        have := allRest_sweep (s1.gracefulStart cfg) (gracefulConn (s1.gracefulStart cfg).expired) hw1 hr1
+          (fun c hr c' hc => rest_gracefulConn _ c hr c' hc)
+        unfold Sys.exitIfIdle
+        split
+        · intro k c hk; exact this k c hk
+        · exact this
+      · exact (admitLoop_good cfg _ s1 hact.1 hna hra).2
+
+theorem good_run (cfg : Cfg) (s : Sys) (ops : List Op) (h : s.Good) : (s.run cfg ops).Good := by
+  induction ops generalizing s with
+  | nil => exact h
+  | cons op rest ih => rw [run_cons]; exact ih _ (good_step cfg s op h)
+
+theorem good_init (cfg : Cfg) : (Sys.init cfg).Good := by
+  refine ⟨⟨List.nodup_nil, List.nodup_nil, ?_⟩, by simp [Sys.init, base], fun _ => rfl, ?_⟩
+  · intro j hj; exact absurd hj List.not_mem_nil
+  · intro k c hk; simp [Sys.conn, Sys.init, lookupConn] at hk
 
 end LtVerif.Lifecycle
